@@ -121,7 +121,12 @@ class ConstantFolder(BlockPass):
                 instruction.replace_by(cnst)
                 count += 1
             else:
-                if (
+                if isinstance(instruction, ir.Binop) and isinstance(
+                    instruction.ty, ir.FloatingPointTyp
+                ):
+                    # Floating point addition is not associative
+                    pass
+                elif (
                     isinstance(instruction, ir.Binop)
                     and isinstance(instruction.a, ir.Binop)
                     and instruction.a.operation == "+"
